@@ -19,6 +19,8 @@ import PV.Model.Io
 import PV.Model.Flatten
 import PV.Model.Warc
 import PV.Model.Format
+import PV.Model.Cache
+import PV.Model.WrapperTrace
 import PV.Spec.Flatten
 import PV.Gen.Flatten
 import PV.Spec.FirstOcc
@@ -452,6 +454,46 @@ def fmt (op : String) (args : List String) : String :=
     else "bad-op"
   | _, _ => "bad-op"
 
+/-- cache.run <fspec hex> <delim hex> <child id|upper|prefix> <stdin hex> : what cache prints and what the child is sent -/
+def cacheU (op : String) (args : List String) : String :=
+  match op, args with
+  | "run", [f, d, child, h] =>
+    match toolRanges f, unhex d, childFn child, unhex h with
+    | some rs, some [dl], some cf, some input =>
+      let key := fun (l : List UInt8) => (PV.Murmur.hashPieces (PV.Tools.seedOf PV.Gen.cacheSeed) (PV.Fields.rangeFields l rs dl)).toNat
+      let lines := recs input
+      let one := fun (l : List UInt8) => (cf [l]).headD []
+      match PV.Cache.run key one lines with
+      | some out => s!"ok {unl out} {unl (PV.Cache.childInput key lines)}"
+      | none => "ERR:abort"
+    | none, _, _, _ => "ERR:badfield"
+    | _, _, _, _ => "bad-op"
+  | _, _ => "bad-op"
+
+def parseEvent (w : String) : Option PV.Wrapper.Event :=
+  match w.splitOn ":" with
+  | ["enq", r, n] => match r.toNat?, n.toNat? with | some r, some n => some (.enq r n) | _, _ => none
+  | ["write", r] => r.toNat?.map .write
+  | ["poison"] => some .poison
+  | ["close"] => some .close
+  | ["consume", n] => n.toNat?.map .consume
+  | ["finish"] => some .finish
+  | ["read"] => some .read
+  | ["out"] => some .out
+  | _ => none
+
+/-- wrapper.accept <enqueueFirst 0|1> <poisonFirst 0|1> <event> ... : run the visible-event automaton -/
+def wrapperU (op : String) (args : List String) : String :=
+  match op, args with
+  | "accept", ef :: pf :: evs =>
+    match evs.mapM parseEvent with
+    | some es =>
+      match PV.Wrapper.firstRejected (ef == "1") (pf == "1") PV.Wrapper.ainit es 0 with
+      | none => s!"accepted {es.length}"
+      | some i => s!"rejected-at {i} {evs.getD i "?"}"
+    | none => "bad-op"
+  | _, _ => "bad-op"
+
 def dispatch (line : String) : String :=
   match words line with
   | [] => "bad-op"
@@ -471,6 +513,8 @@ def dispatch (line : String) : String :=
     | ["flat", op] => flat op args
     | ["warc", op] => warc op args
     | ["fmt", op] => fmt op args
+    | ["cache", op] => cacheU op args
+    | ["wrapper", op] => wrapperU op args
     | ["flat", "spec", op] => flat ("spec." ++ op) args
     | ["tools", "spec", op] => tools ("spec." ++ op) args
     | ["murmur", "spec", op] => murmur ("spec." ++ op) args
